@@ -176,6 +176,25 @@ def brute_sat(cnf, nv, fixed):
     return False
 
 
+def fill_store(target=70000):
+    """a long run: other managers encode inequalities of 22 literals until the process-wide diagram store holds `target` nodes (about
+    60 encodings, 2-3 s; nothing to do when an earlier case of this process already got there)"""
+    co = [3, 5, 7, 11, 13, 17, 19, 23, 29, 31, 37, 41, 43, 47, 53, 59, 61, 67, 71, 73, 79, 83]
+    k = 0
+    while len(pb.memory) < target and k < 200:
+        hm = S.SATManager()
+        e = pb.Expr()
+        for cf, i in zip(co, range(len(co))):
+            e = e + (cf + k) * hm.newvar(i, "fill%d_" % k)
+        try:
+            hm.pseudoboolencoding(e >= sum(co) // 2 + k)
+        except Exception as ex:
+            raise Violation("an inequality of 22 literals (coefficients %d ... %d, the %d-th of a long run, %d nodes in the store) could not be encoded: "
+                            "%s: %s" % (co[0] + k, co[-1] + k, k + 1, len(pb.memory), type(ex).__name__, ex), "encoding-raised-in-a-long-run")
+        k += 1
+    return len(pb.memory) >= target
+
+
 def run_script(c):
     nvars = c["nvars"]
     cls = []
@@ -194,6 +213,8 @@ def run_script(c):
                 pass
     if c["history"]:
         cls.append("history")
+    if c.get("fill") and fill_store():
+        cls.append("after-a-long-run-that-filled-the-diagram-store")
     # ---- the probed manager
     sm = S.SATManager()
     late = c.get("late")
@@ -417,7 +438,7 @@ def script_s(draw):
     for _ in range(draw(st.sampled_from([0, 0, 1, 2, 4]))):
         hn = 7
         history.append([pbpost(hn) for _ in range(draw(_i(1, 3)))])
-    return dict(nvars=nvars, posts=posts, history=history, late=draw(_i(0, nvars - 1)) if draw(_i(0, 5)) == 0 else None,
+    return dict(nvars=nvars, posts=posts, history=history, fill=draw(_i(0, 249)) == 0, late=draw(_i(0, nvars - 1)) if draw(_i(0, 5)) == 0 else None,
                 solve_at=sorted({draw(_i(0, len(posts))) for _ in range(draw(_i(1, 2)))}) if draw(_i(0, 3)) == 0 else [])
 
 
